@@ -30,7 +30,7 @@ META = {
     "encoded": ["elaborate() of csr.Multiplexer, csr.Decoder, csr.Bridge, csr.Register and field actions, "
                 "csr.EventMonitor, event.Monitor, WishboneCSRBridge, wishbone.Decoder, wishbone.Arbiter, WishboneSRAM, "
                 "gpio.Peripheral", "csr.bus.Multiplexer._Shadow.prepare (termination, by execution)"],
-    "also": 'multiplexers probed before / extended after construction; arbiters with a shared-bus memory map; post-elaboration add() compared with a never-elaborated twin; index-vs-digit register names; symbolic (16-bit vector) shadow-balancing termination harness',
+    "also": 'multiplexers probed before / extended after construction; arbiters with a shared-bus memory map; post-elaboration add() compared with a never-elaborated twin; index-vs-digit register names; symbolic (16-bit vector) shadow-balancing termination harness; degenerate instances (empty decoders/multiplexers/monitors, arbiter without initiators, one pin, two words)',
     "bounds": "a seeded sample of the quick configuration families of C04,C06-C08,C10-C16 (thorough: 4x larger, "
               "from the thorough families) + register bridges over csr.Builder maps with Cluster/Index scopes and "
               "colliding flattened names; two elaborations per instance; miter depth D = 8 frames from reset",
@@ -85,9 +85,80 @@ def configs(tier, seed):
     for kind in ("csrdec", "wbdec"):
         for i in range(3):
             out.append({"fam": "api", "cfg": {"kind": kind, "n": i + 1}})
+    # degenerate instances every constructor accepts: nothing attached, a single element, one direction only
+    for what in DEGENERATE:
+        out.append({"fam": "degenerate", "cfg": {"what": what}})
     from .c19_shadow import configs as shadow_configs
     out += shadow_configs(tier)
     return out
+
+
+def _degenerate():
+    from amaranth_soc import csr, wishbone, event, gpio
+    from amaranth_soc.csr.event import EventMonitor
+    from amaranth_soc.csr.wishbone import WishboneCSRBridge
+    from amaranth_soc.wishbone.sram import WishboneSRAM
+    from amaranth_soc.memory import MemoryMap
+    from .mux import StubReg
+
+    def mux(accs):
+        def f():
+            mm = MemoryMap(addr_width=4, data_width=8)
+            regs = []
+            for i, a in enumerate(accs):
+                regs.append(StubReg(12, a))
+                mm.add_resource(regs[-1], name=(f"r{i}",), size=2)
+            m = csr.Multiplexer(mm)
+            return Harness(m, flat_ports(m, *regs), mux=m)
+        return f
+
+    def csr_dec():
+        d = csr.Decoder(addr_width=4, data_width=8)
+        return Harness(d, flat_ports(d), dec=d)
+
+    def wb_dec():
+        d = wishbone.Decoder(addr_width=4, data_width=16, granularity=8, features={"err"})
+        return Harness(d, flat_ports(d), dec=d)
+
+    def arb0():
+        a = wishbone.Arbiter(addr_width=4, data_width=16, granularity=8)
+        return Harness(a, flat_ports(a), arb=a)
+
+    def evmap0():
+        m = event.Monitor(event.EventMap())
+        return Harness(m, flat_ports(m), mon=m)
+
+    def evmon0():
+        m = EventMonitor(event.EventMap(), data_width=8)
+        return Harness(m, flat_ports(m), mon=m)
+
+    def gpio1():
+        g = gpio.Peripheral(pin_count=1, addr_width=4, data_width=8, input_stages=0)
+        return Harness(g, flat_ports(g), dut=g)
+
+    def sram1():
+        d = WishboneSRAM(size=2, data_width=8, granularity=8)
+        return Harness(d, flat_ports(d), dut=d)
+
+    def bridge_empty():
+        b = csr.Bridge(MemoryMap(addr_width=2, data_width=8))
+        return Harness(b, flat_ports(b), br=b)
+
+    def wbcsr_min():
+        bus = csr.Interface(addr_width=1, data_width=8, path=("csr",))
+        bus.memory_map = MemoryMap(addr_width=1, data_width=8)
+        br = WishboneCSRBridge(bus)
+        return Harness(br, flat_ports(br, bus), br=br, bus=bus)
+
+    return {"mux-empty": mux([]), "mux-write-only": mux(["w", "w"]), "mux-read-only": mux(["r"]), "csr-decoder-empty": csr_dec,
+            "wishbone-decoder-empty": wb_dec, "arbiter-no-initiators": arb0, "event-monitor-no-events": evmap0,
+            "csr-event-monitor-no-events": evmon0, "gpio-one-pin": gpio1, "sram-two-words": sram1,
+            "bridge-empty-map": bridge_empty, "wishbone-csr-bridge-minimal": wbcsr_min}
+
+
+DEGENERATE = ["mux-empty", "mux-write-only", "mux-read-only", "csr-decoder-empty", "wishbone-decoder-empty",
+              "arbiter-no-initiators", "event-monitor-no-events", "csr-event-monitor-no-events", "gpio-one-pin",
+              "sram-two-words", "bridge-empty-map", "wishbone-csr-bridge-minimal"]
 
 
 def _bridge_maker(cfg):
@@ -131,6 +202,8 @@ def maker(item):
         return _bridge_maker(item["cfg"])
     if item["fam"] == "arbmap":
         return _arbmap_maker(item["cfg"])
+    if item["fam"] == "degenerate":
+        return _degenerate()[item["cfg"]["what"]]
     mod = importlib.import_module(f"vt.props.{item['fam']}")
     return mod.maker(item["cfg"])
 
